@@ -84,6 +84,8 @@ type Replay struct {
 	Tail     []string          `json:"journal_tail,omitempty"`
 }
 
+var noEvidence bool
+
 var (
 	verifDir = "/verif"
 	repoDir  = "/repo"
@@ -418,6 +420,7 @@ func main() {
 	scenF := flag.String("scenario", "", "restrict to one scenario")
 	noShrink := flag.Bool("noshrink", false, "skip minimisation")
 	selftest := flag.Bool("selftest", false, "determinism self-test instead of a check")
+	flag.BoolVar(&noEvidence, "noevidence", false, "do not write evidence or replay files (cache warm-up)")
 	flag.Parse()
 	if v := os.Getenv("VERIF_SEED"); v != "" {
 		if n, err := strconv.ParseUint(v, 10, 64); err == nil {
@@ -885,6 +888,9 @@ func doReplay(path string) int {
 }
 
 func writeEvidence(prop, tier string, base uint64, evals, reach, distinct int, samples []any, stats map[string]int, simMS int64, wall float64, nviol int, known []*knownFinding, foreign map[string]int, genInfo string, planned int) {
+	if noEvidence {
+		return
+	}
 	meta := propMeta[prop]
 	faults := map[string]int{}
 	probes := map[string]int{}
